@@ -168,8 +168,17 @@ int hist_op(int argc, char** w) {
     printf("done"); summary(); return 1;
   }
   if (!strcmp(op, "tagget") && n == 2) { put_new(S(a[0]), cbor_tag_item(slot[S(a[1])]), 0); return 1; }
-  if (!strcmp(op, "copy") && n == 2) { put_new(S(a[0]), cbor_copy(slot[S(a[1])]), 1); return 1; }
-  if (!strcmp(op, "incref") && n == 2) { put_new(S(a[0]), cbor_incref(slot[S(a[1])]), 0); return 1; }
+  if (!strcmp(op, "copy") && n == 2) {
+    extern int meta_eq(const cbor_item_t*, const cbor_item_t*, int);   /* tree_ops.c: what the dump does not show (code point counts of text strings) */
+    cbor_item_t* c = cbor_copy(slot[S(a[1])]);
+    if (c && !slot[S(a[0])] && !meta_eq(slot[S(a[1])], c, 0)) printf("COPY-METADATA-DIFFERS ");
+    put_new(S(a[0]), c, 1); return 1;
+  }
+  if (!strcmp(op, "incref") && n == 2) {   /* one more reference, taken the long way round: two cbor_incref, one cbor_intermediate_decref */
+    cbor_item_t* x = slot[S(a[1])]; cbor_item_t* r = cbor_incref(x);
+    if (x) { (void)cbor_incref(x); cbor_intermediate_decref(x); }
+    put_new(S(a[0]), r, 0); return 1;
+  }
   if (!strcmp(op, "decref") && n == 1) { cbor_decref(&slot[S(a[0])]); slot[S(a[0])] = NULL; printf("done"); summary(); return 1; }
   if (!strcmp(op, "drop") && n == 1) {   /* release the slot's reference if it holds one */
     if (slot[S(a[0])]) { cbor_decref(&slot[S(a[0])]); slot[S(a[0])] = NULL; printf("done"); } else printf("empty");
